@@ -23,9 +23,13 @@ c16_depthToZp (const IMATH_INTERNAL_NAMESPACE::Frustum<T>& fr, T depth)
     }
 }
 
-// Frustum<T>::planes (p, M) with the `double (_nearPlane)` / `(T)` casts removed (exact-arithmetic reading of the body).
+// Frustum<T>::planes (p, M).  The body computes the far-corner scale in double: `double s = _farPlane / double (_nearPlane);
+// T farLeft = (T) (s * _left);` …  The transcript keeps the cast points and makes the type of `s` a template parameter S:
+//   S = T      : the casts are identities — the exact-arithmetic reading, the only one a symbolic scalar can run (extracted to Lean);
+//   S = double : the body as written; at T = float this is compared BITWISE with the real Frustum<float>::planes (p, M) by c16_corr.cpp
+//                (at T = double both coincide and translation validation compares bitwise).
 // `only` >= 0 computes just that plane.
-template <class T>
+template <class T, class S = T>
 inline void
 c16_planesM (const IMATH_INTERNAL_NAMESPACE::Frustum<T>& fr, IMATH_INTERNAL_NAMESPACE::Plane3<T> p[6],
              const IMATH_INTERNAL_NAMESPACE::Matrix44<T>& M, int only)
@@ -40,11 +44,11 @@ c16_planesM (const IMATH_INTERNAL_NAMESPACE::Frustum<T>& fr, IMATH_INTERNAL_NAME
     Vec3<T> d = Vec3<T> (_right, _bottom, -_nearPlane) * M;
     if (!fr.orthographic ())
     {
-        T       s         = _farPlane / _nearPlane;
-        T       farLeft   = s * _left;
-        T       farRight  = s * _right;
-        T       farTop    = s * _top;
-        T       farBottom = s * _bottom;
+        S       s         = S (_farPlane) / S (_nearPlane);
+        T       farLeft   = T (s * S (_left));
+        T       farRight  = T (s * S (_right));
+        T       farTop    = T (s * S (_top));
+        T       farBottom = T (s * S (_bottom));
         Vec3<T> e         = Vec3<T> (farLeft, farBottom, -_farPlane) * M;
         Vec3<T> f         = Vec3<T> (farLeft, farTop, -_farPlane) * M;
         Vec3<T> g         = Vec3<T> (farRight, farTop, -_farPlane) * M;
